@@ -258,7 +258,13 @@ def oracle_tc(case, obs, dist=None):
                     dist["deadline_at_completion"] += 1
                     if not A["io"] and t0 < start:
                         dist["waiter_first_deadline_at_completion"] += 1
-            exp_done = first <= td if want_res == 0 else first < td      # a peer's cancel at the deadline comes after the timers of that date
+            if want_res == 3 and first == td:
+                # a peer's cancel (itself a timer callback of wait_for_or_cancel, or the peer's end) at exactly this waiter's
+                # deadline: which of the two same-date timers runs first is heap insertion order, not fixed by the property
+                if dist is not None:
+                    dist["cancel_at_deadline_not_judged"] = dist.get("cancel_at_deadline_not_judged", 0) + 1
+                continue
+            exp_done = first <= td if want_res == 0 else first < td
             if ret is None:
                 if (first != INF or td != INF) and obs["end"] is not None and min(first, td) + p <= obs["end"] and w["pid"] not in ended:
                     bad.append(("wait-never-returned", what + "it never returned (simulation ended at %s)" % obs["end"]))
